@@ -116,9 +116,9 @@ func verifEncodeRecord(mode IOMode, payload string) []byte {
 
 func VerifC13Order() {
 	mode := []IOMode{DefaultMode, CSVMode, TSVMode}[verifIntRange(0, 2)]
-	maxOps := verifBound(3, 4)
+	maxOps := verifBound(3, 3) // four operations did not finish within the thorough time limit
 	if mode != DefaultMode {
-		maxOps = verifBound(2, 3) // the CSV encoder forks on every payload byte: shorter histories in these modes
+		maxOps = verifBound(2, 2) // the CSV encoder forks on every payload byte: shorter histories in these modes
 	}
 	nops := verifIntRange(1, maxOps)
 	pre := verifString(1) // both files hold this byte before the run
